@@ -2,6 +2,7 @@ package lua
 
 import (
 	"bufio"
+	"errors"
 	"fmt"
 	"io"
 	"reflect"
@@ -141,18 +142,38 @@ func isArrayKey(v LNumber) bool {
 }
 
 func parseNumber(number string) (LNumber, error) {
-	var value LNumber
-	number = strings.Trim(number, " \t\n")
-	if v, err := strconv.ParseInt(number, 0, LNumberBit); err != nil {
-		if v2, err2 := strconv.ParseFloat(number, LNumberBit); err2 != nil {
-			return LNumber(0), err2
-		} else {
-			value = LNumber(v2)
-		}
-	} else {
-		value = LNumber(v)
+	s := strings.Trim(number, " \t\n\v\f\r")
+	neg := false
+	if len(s) > 0 && (s[0] == '+' || s[0] == '-') {
+		neg = s[0] == '-'
+		s = s[1:]
 	}
-	return value, nil
+	if len(s) > 2 && s[0] == '0' && (s[1] == 'x' || s[1] == 'X') {
+		v, err := strconv.ParseUint(s[2:], 16, 64) // explicit base: no sign, no '_'
+		if err != nil {
+			return LNumber(0), err
+		}
+		if neg {
+			return -LNumber(v), nil
+		}
+		return LNumber(v), nil
+	}
+	// Lua's decimal syntax only: no '_', "inf", "nan", 0b/0o prefixes, p-exponents
+	for i := 0; i < len(s); i++ {
+		c := s[i]
+		sign := (c == '+' || c == '-') && i > 0 && (s[i-1] == 'e' || s[i-1] == 'E')
+		if !('0' <= c && c <= '9' || c == '.' || c == 'e' || c == 'E' || sign) {
+			return LNumber(0), strconv.ErrSyntax
+		}
+	}
+	v, err := strconv.ParseFloat(s, LNumberBit)
+	if err != nil && !errors.Is(err, strconv.ErrRange) { // out of range: +-Inf or 0, as strtod
+		return LNumber(0), err
+	}
+	if neg {
+		v = -v
+	}
+	return LNumber(v), nil
 }
 
 func popenArgs(arg string) (string, []string) {
